@@ -31,11 +31,12 @@ static Bytes make_payload(const std::string& cls, vh::Rng& rng) {
     Bytes p;
     if (cls == "empty") return p;
     if (cls == "one") { p.push_back((uint8_t)rng.below(256)); return p; }
-    size_t n = cls == "odd" ? 2 * rng.range(1, 40) + 1 : cls == "even" ? 2 * rng.range(1, 40) : cls == "big" ? (size_t)rng.range(1300, 1472) : cls == "huge" ? (size_t)rng.range(60000, 65000) : (size_t)(2 * rng.range(2, 30));
+    size_t n = cls == "odd" ? 2 * rng.range(1, 40) + 1 : cls == "even" ? 2 * rng.range(1, 40) : cls == "big" ? (size_t)rng.range(1300, 1472) : cls == "huge" ? (size_t)rng.range(60000, 65000) : cls == "cksum0" ? (size_t)(2 * rng.range(2, 20)) : (size_t)(2 * rng.range(2, 30));
     for (size_t i = 0; i < n; ++i) p.push_back((uint8_t)rng.below(256));
     if (cls == "ones") for (size_t i = 0; i < n; ++i) p[i] = 0xff;          // every word 0xffff: the sum saturates
     if (cls == "zeros") for (size_t i = 0; i < n; ++i) p[i] = 0;
     if (cls == "carry") for (size_t i = 0; i < n; ++i) p[i] = (i % 2) ? 0xfe : 0xff;   // many end-around carries
+    if (cls == "cksum0") { p[n - 2] = 0; p[n - 1] = 0; }      // last word chosen by build_packet so that the transport checksum computes to ZERO
     return p;
 }
 static Bytes rnd(vh::Rng& rng, size_t n) { Bytes b; for (size_t i = 0; i < n; ++i) b.push_back((uint8_t)rng.below(256)); return b; }
@@ -103,11 +104,14 @@ static EthernetII* build_packet(const vh::Json& sc, vh::Rng& rng, Vals& v, int& 
         else if (sh == "rt") plan.push_back(std::make_pair(43, 22));
         else if (sh == "hbh7") plan.push_back(std::make_pair(0, 7));            // data sizes that are not 6 mod 8: padding needed
         else if (sh == "dst3") plan.push_back(std::make_pair(60, 3));
+        else if (sh == "hbh7_dst3") { plan.push_back(std::make_pair(0, 7)); plan.push_back(std::make_pair(60, 3)); }      // two paddings that add up to more than 8
+        else if (sh == "hbh1_dst1_dst9") { plan.push_back(std::make_pair(0, 1)); plan.push_back(std::make_pair(60, 1)); plan.push_back(std::make_pair(60, 9)); }
         else if (sh == "dst15_hbh") { plan.push_back(std::make_pair(0, 6)); plan.push_back(std::make_pair(60, 15)); }
         else if (sh == "hbh_rt_dst") { plan.push_back(std::make_pair(0, 14)); plan.push_back(std::make_pair(43, 6)); plan.push_back(std::make_pair(60, 30)); }
         for (size_t i = 0; i < plan.size(); ++i) { Opt o; o.kind = plan[i].first; o.data = rnd(rng, plan[i].second);
             // keep option TLVs inside hop-by-hop / destination headers well formed: one PadN covering the data
-            if (o.kind != 43) { o.data[0] = 1; o.data[1] = (uint8_t)(plan[i].second - 2); for (size_t k = 2; k < o.data.size(); ++k) o.data[k] = 0; } else { o.data[0] = 0; o.data[1] = 0; }
+            if (o.kind != 43 && plan[i].second == 1) o.data[0] = 0;      /* Pad1 */
+            else if (o.kind != 43) { o.data[0] = 1; o.data[1] = (uint8_t)(plan[i].second - 2); for (size_t k = 2; k < o.data.size(); ++k) o.data[k] = 0; } else { o.data[0] = 0; o.data[1] = 0; }
             v.ext.push_back(o); ip->add_header(IPv6::ext_header((uint8_t)o.kind, o.data.begin(), o.data.end())); }
         tail->inner_pdu(ip); tail = ip;
     }
@@ -135,6 +139,18 @@ static EthernetII* build_packet(const vh::Json& sc, vh::Rng& rng, Vals& v, int& 
         ICMPv6* i = new ICMPv6((ICMPv6::Types)v.flags); i->identifier((uint16_t)v.icmp_id); i->sequence((uint16_t)v.icmp_seq); tail->inner_pdu(i); tail = i;
     }
     if (!v.payload.empty()) tail->inner_pdu(new RawPDU(v.payload.begin(), v.payload.end()));
+    if (sc["pay"].str() == "cksum0") {
+        // the one's-complement sum of everything the checksum covers comes out as 0xffff, i.e. the computed checksum is 0
+        // (RFC 768: UDP then transmits 0xffff): with the last payload word 0 the field reads C, so the word that makes it 0 is C
+        Bytes b = ethp->serialize(); size_t off = b.size() - v.payload.size();   // padded frames are longer than 60 here? no: payload >= 4 and headers >= 42
+        if (b.size() >= 60 + 4 * (size_t)ntags) {                                  // no Ethernet padding behind the payload
+            size_t l4 = off - (tr == "tcp" ? tail->header_size() : 8);
+            size_t coff = l4 + (tr == "tcp" ? 16 : tr == "udp" ? 6 : 2);
+            uint8_t c0 = b[coff], c1 = b[coff + 1];
+            if (!(tr == "udp" && c0 == 0xff && c1 == 0xff)) { v.payload[v.payload.size() - 2] = c0; v.payload[v.payload.size() - 1] = c1;
+                tail->inner_pdu(new RawPDU(v.payload.begin(), v.payload.end())); }
+        }
+    }
 
     ntags_out = ntags;
     return ethp;
